@@ -272,3 +272,17 @@ package ct
 //@ ensures [no-pem-block-is-an-error] dec.res0 == nil ==> result0 == nil && result3 != nil && !pk.called
 //@ ensures [key-is-the-parsed-block-and-rest-is-what-follows-it] dec.res0 != nil ==> pk.called && result0 == pk.res0 && result3 == pk.res1 && result2 == dec.res1
 //@ ensures [caller-view] result3 == nil ==> validKey(result0)
+
+//@ func (*SHA256Hash).FromBase64String
+//@ props C19
+//@ arith int
+//@ site DecodeString#1 as dec
+//@ requires s != nil
+//@ modifies pointee(s)
+//@ ensures [undecodable-or-wrong-length-is-an-error] dec.res1 != nil || len(dec.res0) != 32 ==> result != nil
+//@ ensures [hash-is-the-decoded-32-bytes] result == nil ==> len(dec.res0) == 32 && (forall j int :: 0 <= j && j < 32 ==> (*s)[j] == dec.res0[j])
+//@ at dec assert [decodes-the-given-text] dec.s == b64
+
+//@ func (SHA256Hash).Base64String
+//@ props C19
+//@ pure
